@@ -1155,8 +1155,15 @@ def main():
                     EXTRA_CONST_NAMES.append(n)
                     print("TRANSLATE-NOTE: exported constant %s is not a `pub const` item any more; its compiled value is compared with the reference" % n)
         import accessors as accmod
-        accs = accmod.translate_accessors(lambda f: read_src(args.repo, f), consts, crate_aliases(args.repo),
-                                          None if args.write_baseline else fallback)
+        if os.environ.get("VERIF_ACCESSORS_PINNED") and BASELINE is not None and "accessors" in BASELINE:
+            # ./check found that the freshly generated Accessors.lean does not elaborate: the model is built over the pinned
+            # tree's translations (tied by the correspondence); the properties that own the accessor theorems report it
+            accs = [BASELINE["accessors"][k] for k in BASELINE["accessors"]]
+            FALLBACKS.append({"component": "accessors (all)", "reason": "the generated Accessors.lean did not elaborate"})
+        else:
+          accs = accmod.translate_accessors(lambda f: read_src(args.repo, f), consts, crate_aliases(args.repo),
+                                            None if args.write_baseline else fallback,
+                                            None if (args.write_baseline or BASELINE is None) else BASELINE.get("accessors"))
         try:
             native = accmod.translate_native(lambda f: read_src(args.repo, f))
         except TranslateError as e:
@@ -1208,6 +1215,8 @@ def main():
         write_if_changed(args.rust, emit_rust(consts_list, structs, to_str, sizes))
     print("translated: %d consts, %d parse programs, %d C structs, %d to_str functions, %d accessors; rewrote %s"
           % (len(consts_list), 2 * (len(progs) + 1), len(structs), len(to_str), len(accs), changed or "nothing"))
+    for sc in accmod.SIGNATURE_CHANGES:
+        print("TRANSLATE-SIGNATURE: %s now reads %s (pinned tree: %s); the model keeps the pinned translation" % (sc["item"], sc["now"], sc["pinned"]))
     for sk in SKIPPED_CONSTS:
         print("TRANSLATE-SKIPPED-CONST: %s%s (%s)" % ("pub " if sk["pub"] else "", sk["name"], sk["reason"]))
     for fb in FALLBACKS:
